@@ -183,6 +183,10 @@ namespace sqf::runtime
 
         sqf::runtime::diagnostics::diag_info diag_info_from_position() const
         {
+            if (m_instruction_set.empty())
+            {
+                return {};
+            }
             if (m_position == position_invalid)
             {
                 return (*m_instruction_set.begin())->diag_info();
